@@ -25,10 +25,12 @@ type SvcSpec struct {
 	Sub    []string
 	Extra  []string // verbatim definitions (enums, inputs, unions, scalars, directives)
 	NoNode bool     // service without Node / node(id:)
+	// NodeField, if set, is this service's declaration of the Relay lookup (default: node(id: ID!): Node)
+	NodeField string
 }
 
 func (s *SvcSpec) clone() *SvcSpec {
-	c := &SvcSpec{URL: s.URL, Types: map[string][]string{}, Impl: map[string]string{}, NoNode: s.NoNode}
+	c := &SvcSpec{URL: s.URL, Types: map[string][]string{}, Impl: map[string]string{}, NoNode: s.NoNode, NodeField: s.NodeField}
 	for k, v := range s.Types {
 		c.Types[k] = append([]string{}, v...)
 	}
@@ -93,7 +95,11 @@ func (s *SvcSpec) SDL() string {
 	}
 	q := s.Query
 	if !s.NoNode {
-		q = append([]string{"node(id: ID!): Node"}, q...)
+		nf := "node(id: ID!): Node"
+		if s.NodeField != "" {
+			nf = s.NodeField
+		}
+		q = append([]string{nf}, q...)
 	}
 	fmt.Fprintf(&b, "type Query { %s }\n", strings.Join(q, " "))
 	if len(s.Mut) > 0 {
